@@ -143,10 +143,10 @@ Section Encode.
     | S f =>
         match t with
         | GOpaque r g m u =>
-            match r with
-            | 91 :: 93 :: rest => encode f (GSlice (GOpaque rest g m u)) v
-            | 42 :: rest => encode f (GPtr (GOpaque rest g m u)) v
-            | _ => match v with VScalar j => Ok j | _ => Ok (zero_json (scalar_kind tm t)) end
+            match ref_shape r with
+            | Some (true, rest) => encode f (GSlice (GOpaque rest g m u)) v
+            | Some (false, rest) => encode f (GPtr (GOpaque rest g m u)) v
+            | None => match v with VScalar j => Ok j | _ => Ok (zero_json (scalar_kind tm t)) end
             end
         | GAlias _ | GEnum _ => match v with VScalar j => Ok j | _ => Ok (zero_json (scalar_kind tm t)) end
         | GGeneric _ _ => Err (b "generic-not-modelled")
